@@ -55,8 +55,7 @@ impl BuildModuleDefinitions {
         &mut self,
         required_resource: RequiredResource,
         require_path: &Path,
-        call: &FunctionCall,
-    ) -> DarkluaResult<Expression> {
+    ) -> DarkluaResult<String> {
         let mut block = match required_resource {
             RequiredResource::Block(block) => {
                 if let Some(LastStatement::Return(return_statement)) = block.get_last_statement() {
@@ -91,6 +90,14 @@ impl BuildModuleDefinitions {
         );
         self.rename_type_declaration
             .insert_module_types(module_name.clone(), exported_types);
+
+        Ok(module_name)
+    }
+
+    /// Builds the expression that replaces the given `require` call of the module registered
+    /// under `module_name`. The trivia is taken from that call: every require site gets its own.
+    pub(crate) fn build_require_call(&self, module_name: &str, call: &FunctionCall) -> Expression {
+        let module_name = module_name.to_owned();
 
         let token_trivia_identifier = match call.get_prefix() {
             Prefix::Identifier(require_identifier) => require_identifier.get_token(),
@@ -139,14 +146,14 @@ impl BuildModuleDefinitions {
             Arguments::Table(_) => TupleArguments::default(),
         };
 
-        let new_require_call = FunctionCall::from_prefix(FieldExpression::new(
+        let new_require_call: Expression = FunctionCall::from_prefix(FieldExpression::new(
             Identifier::from(&self.modules_identifier),
             module_field_name,
         ))
         .with_arguments(arguments)
         .into();
 
-        Ok(new_require_call)
+        new_require_call
     }
 
     fn generate_module_name(&mut self) -> String {
